@@ -59,4 +59,21 @@ HARNESSES = [
     dict(name="dir_inode", file="dir_inode.c", label="proved", timeout=300, unwind=3,
          nochecks=["--conversion-check"],
          fp={"destroy": None, "copy": None, "*": None}),
+    dict(name="meta_write_to_file", file="meta_write_to_file.c", label="bounded(queued blocks<=3)",
+         timeout=300, unwind=5, flags=["--arrays-uf-always"],
+         fp={"get_size": "stub_get_size", "write_at": "stub_write_at", "destroy": "stub_destroy",
+             "*": None},
+         cases=[dict(id="nb%d" % n, defines={"NB": n}, tier="quick") for n in range(4)]),
+    # deduplicate_blocks: the C08 harness (harness/C08/blk_dedup.c) - its truncate_safe /
+    # match_needs_compare obligations are what keeps "byte-identical contents" for files that
+    # share storage; here on the shapes where the matched run can overlap the file's own blocks
+    dict(name="blk_dedup", file="../C08/blk_dedup.c", label="bounded(blocks<=4)", timeout=900,
+         fp={"truncate": "stub_truncate", "destroy": "stub_unreachable_destroy",
+             "get_size": "stub_unreachable_get_size", "write_at": "stub_unreachable_write_at"},
+         cases=[dict(id="u%df%d" % (u, f), defines={"NB": 4, "USED": u, "FS": f}, unwind=5, tier="quick")
+                for u, f in ((3, 1), (4, 1), (4, 2), (4, 3))]),
+    dict(name="blocks_sizes", file="blocks_sizes.c", label="bounded(block index<=3)",
+         timeout=300, unwind=6, nochecks=["--conversion-check"],
+         include_dirs=["lib/sqfs/src/block_processor"],
+         fp={"write_data_block": "stub_write_data_block", "*": None}),
 ]
